@@ -150,7 +150,8 @@ where
     let wsum: f64 = w.iter().map(|x| x.as_f64()).sum();
     for i in 0..len {
         let want = w[i].as_f64() / wsum;
-        if (p[i].as_f64() - want).abs() > 8.0 * eps * want.max(1e-300) + 1e-300 || (w[i] == F::zero()) != (p[i] == F::zero()) {
+        // the library sums the weights in its own float type: up to len roundings in the sum
+        if (p[i].as_f64() - want).abs() > (len as f64 + 8.0) * eps * want.max(1e-300) + 1e-300 || (w[i] == F::zero()) != (p[i] == F::zero()) {
             o.violate("normalisation", "Categorical::new:proportionality", format!("{}: p[{i}] = {:?} but weight/sum = {want}", F::NAME, p[i]));
             break;
         }
@@ -252,7 +253,8 @@ impl Scenario for ExhaustiveF32 {
         let mut g = Gen::new(pu(params, "gseed"));
         let mut w64 = gen_weights(&mut g, 1e-43, 1e-39);
         w64.truncate(12.max(1)); // keep the per-sample cost low; zeros are re-checked below
-        if w64.iter().all(|x| *x == 0.0) {
+        // (zero-ness is decided in f32: tiny f64 weights underflow to 0 there)
+        if w64.iter().all(|x| (*x as f32) == 0.0) {
             w64[0] = 1.0;
         }
         let w: Vec<f32> = w64.iter().map(|x| *x as f32).collect();
